@@ -11,9 +11,9 @@ run() { # label, command...
   echo "[$label] exit=$rc $(echo "$out" | grep -E '^C1[456] tier|determinism:|mutants:|equivalents:' | tail -1 | cut -c1-150)"
   if [ $rc -ne 0 ]; then bad=$((bad+1)); echo "NONZERO $label"; echo "$out" | grep -v KNOWN-FINDING | tail -15; fi
 }
-for s in 0 5; do run "C15 thorough seed $s" env VERIF_SEED=$s ./check C15 --tier thorough --no-evidence; done
-run "C14 thorough seed 0" env VERIF_SEED=0 ./check C14 --tier thorough --no-evidence
-run "C16 thorough seed 0" env VERIF_SEED=0 ./check C16 --tier thorough --no-evidence
+for s in ${C15_THOROUGH_SEEDS:-0 5}; do run "C15 thorough seed $s" env VERIF_SEED=$s ./check C15 --tier thorough --no-evidence; done
+for s in ${C14_THOROUGH_SEEDS:-0}; do run "C14 thorough seed $s" env VERIF_SEED=$s ./check C14 --tier thorough --no-evidence; done
+for s in ${C16_THOROUGH_SEEDS:-0}; do run "C16 thorough seed $s" env VERIF_SEED=$s ./check C16 --tier thorough --no-evidence; done
 for s in $(seq 1 ${SOAK_LAST:-40}); do for p in C14 C15 C16; do run "$p quick seed $s" env VERIF_SEED=$s ./check $p --tier quick --no-evidence; done; done
 run "determinism" ./check --selftest determinism --runs 100
 run "sensitivity" ./check --selftest sensitivity
